@@ -147,7 +147,7 @@ Section StepBytes.
   Hypothesis contract : io_writer_contract P.
 
   Ltac unchanged :=
-    exists 0%nat; simpl; rewrite ?app_nil_r; split; [auto|]; split; [lia|]; split; [auto; discriminate|auto].
+    exists 0%nat; simpl; rewrite ?app_nil_r; split; [auto|]; split; [lia|]; split; [auto; discriminate|auto; try (intros; discriminate)].
 
   Lemma delegate_body b k st st' e : rec_delegate P b k st = (st', e) -> bodyst st' = bodyst st.
   Proof.
@@ -262,8 +262,8 @@ Section StepCaps.
       { destruct (r_size (fst st) =? not_written); [apply rec_write_header_log|].
         exists []. now rewrite app_nil_r. }
       destruct X as (hs & Hl & Hh).
-      destruct (c_flush cfg); apply pair_equal_spec in HW as [<- <-]; simpl; auto;
-        exists hs; unfold lg in *; simpl; rewrite Hl, <- app_assoc; auto.
+      destruct (c_flush cfg); apply pair_equal_spec in HW as [<- <-]; [auto| | |];
+        exists hs; unfold lg in *; cbn [snd fst u_tr rev tl]; rewrite Hl, <- app_assoc; repeat split; auto.
     - (* Hijack *)
       destruct (rec_hijack P cfg st) as [s e] eqn:HW. apply pair_equal_spec in H as [<- <-].
       unfold rec_hijack, uw_cap in HW. destruct (c_hij cfg).
